@@ -104,6 +104,10 @@ func (w *world) exec(op string) (string, string) {
 			line, ans = w.execHW(f[1:])
 		case "hc":
 			line, ans = w.execHC(f[1:])
+		case "vc":
+			if ans = w.execVC(f[1:]); ans == "" {
+				line = "" // `vc` has emitted its own lines
+			}
 		default:
 			ans = "bad-op"
 		}
@@ -191,7 +195,7 @@ func main() {
 	r.MaxSamples = 6
 	r.Rule = "distinct by sha256 of the request lines; non-trivial = vn: a value used by two listener generations and a Wait answered; " +
 		"vr: forced schedule with >= 2 events; pr: >= 2 callbacks; ev: >= 2 hooks and >= 2 triggers; it: a Hook/Unhook executed inside a callback; " +
-		"mt/pt/hw/hc: every stress run"
+		"mt/pt/hw/hc/vc: every stress run"
 	if lines := r.ReplayLines(); lines != nil {
 		emit(r, runOps(0, lines))
 		r.Finish()
@@ -227,6 +231,10 @@ func main() {
 	// stress cases: few at a time, each starts its own goroutines
 	rng, _ := r.Rng.Fork()
 	st := genStress(rng, r.Scale)
+	for i := 0; i < 8*r.Scale; i++ {
+		rng, _ := r.Rng.Fork()
+		st = append(st, genVC(rng))
+	}
 	runAll(r, make([]uint64, len(st)), st, 3)
 	r.Finish()
 }
